@@ -90,7 +90,12 @@ def z3_problem(H, dag, f, scale, starts, ends, lam, wt, fixed=None):
     for e, x in X.items():
         o.add(x >= 0)
         if fixed is not None and e in fixed:
-            o.add(x == ref._q(fixed[e]))
+            if wt is float or wt == "float":
+                # float results are conserving only up to the solver tolerance: the value may be off by 1e-6 (relative)
+                tol_ = ref._q(1e-6 * max(1.0, abs(float(fixed[e]))))
+                o.add(x >= ref._q(fixed[e]) - tol_, x <= ref._q(fixed[e]) + tol_)
+            else:
+                o.add(x == ref._q(fixed[e]))
     tot = ref._q(0); err = ref._q(0)
     for i, (e, t) in enumerate(f.items()):
         d = V(f"d{i}") if (wt == "int" and isinstance(t, int)) else z3.Real(f"d{i}")
@@ -221,7 +226,8 @@ def run_case(case):
             obs["c16.optimum_compared"] += 1
             if abs(sol["objective_value"] - float(best)) > 1e-6 * max(1, abs(float(best))):
                 viol.append({"sig": f"C16/reported-objective!=optimum{tagstr}", "msg": f"objective_value {sol['objective_value']}, z3 optimum (error + lambda*source outflow) {best}; {desc}"})
-        if sol["objective_value"] + 1e-6 < rec_obj:
+        # (with a positive few-values epsilon the last solver run minimises the NUMBER of distinct values: its objective is that count)
+        if sol["objective_value"] + 1e-6 < rec_obj and not case["eps"]:
             viol.append({"sig": f"C16/objective<scaled-error{tagstr}", "msg": f"objective {sol['objective_value']} < recomputed scaled error {rec_obj}; {desc}"})
     nontriv = rec_err > 0
     return {"viol": viol[:4], "obs": dict(obs), "nontrivial": nontriv, "keys": [hashlib.sha1(desc.encode()).hexdigest()[:14]] if nontriv else [],
